@@ -181,3 +181,352 @@ Proof.
   - repeat constructor; simpl; intuition discriminate.
   - vm_compute. reflexivity.
 Qed.
+
+(*BEGIN GenAgreeCollator_C07*)
+(* ------------------------------------------------------------------------------------ *)
+(* SOURCE TEXT of the anchored collators.  Gen/CollatorSrc.v is regenerated on every check from
+   src/cr/cube/collator.py by harness/translate/x_collator.py (shallow translation: every member of
+   PayloadOrderCollator / ExplicitOrderCollator, inheritance flattened, as a Gallina function over the
+   Python-semantics combinators of Base/PyList.v + Model/PyCollator.v; `self.<member>` = the generated
+   function of that member).  For ALL dimensions, order specs, empty sets and both order formats each
+   generated function IS the definition of Model/Collator.v the theorems above are about
+   ([pyself_of d ..] = the collator object over the Python view of the model dimension; [zdesc],
+   [pbi_dict], [ins_pos], [ins_keys], [danchor_pos], [display_result]: Proofs/GenAgreeCollator*.v).
+   [None] = the member is outside the translator's whitelist (tied by the correspondence only). *)
+From CC Require Proofs.GenAgreeCollatorAnchored Proofs.GenAgreeCollatorSbv.
+Section GenAgreeCollator_C07.   (* scopes and imports below end with the section *)
+Import Coq.Lists.List Coq.ZArith.ZArith CC.Base.SortX CC.Base.PyList CC.Spec.OrderSpec CC.Model.Collator
+       CC.Model.PyCollator CC.Gen.CollatorSrc CC.Proofs.GenAgreeCollatorLib CC.Proofs.GenAgreeCollatorAnchored
+       CC.Proofs.GenAgreeCollatorSbv.
+Import Coq.Lists.List.ListNotations.
+Local Open Scope Z_scope.
+
+Theorem C07_gen_Payload__elements :
+  match src_PayloadOrderCollator__elements with
+  | Some f => forall d spec empties fmt vals svals,
+      f (pyself_of d spec empties fmt vals svals) = d_elems d
+  | None => True end.
+Proof. exact gen_Payload__elements. Qed.
+Print Assumptions C07_gen_Payload__elements.
+
+Theorem C07_gen_Payload__element_ids :
+  match src_PayloadOrderCollator__element_ids with
+  | Some f => forall d spec empties fmt vals svals,
+      f (pyself_of d spec empties fmt vals svals) = d_ids d
+  | None => True end.
+Proof. exact gen_Payload__element_ids. Qed.
+Print Assumptions C07_gen_Payload__element_ids.
+
+Theorem C07_gen_Payload__subtotals_bogus_ids :
+  match src_PayloadOrderCollator__subtotals_bogus_ids with
+  | Some f => forall d spec empties fmt vals svals,
+      f (pyself_of d spec empties fmt vals svals) = payload_bogus_ids d
+  | None => True end.
+Proof. exact gen_Payload__subtotals_bogus_ids. Qed.
+Print Assumptions C07_gen_Payload__subtotals_bogus_ids.
+
+Theorem C07_gen_Payload__order_mapping :
+  match src_PayloadOrderCollator__order_mapping with
+  | Some f => forall d spec empties fmt vals svals,
+      f (pyself_of d spec empties fmt vals svals) = order_mapping (payload_bogus_ids d)
+  | None => True end.
+Proof. exact gen_Payload__order_mapping. Qed.
+Print Assumptions C07_gen_Payload__order_mapping.
+
+Theorem C07_gen_Payload__order_spec :
+  match src_PayloadOrderCollator__order_spec with
+  | Some f => forall d spec empties fmt vals svals,
+      f (pyself_of d spec empties fmt vals svals) = spec
+  | None => True end.
+Proof. exact gen_Payload__order_spec. Qed.
+Print Assumptions C07_gen_Payload__order_spec.
+
+Theorem C07_gen_Payload__subtotals :
+  match src_PayloadOrderCollator__subtotals with
+  | Some f => forall d spec empties fmt vals svals,
+      f (pyself_of d spec empties fmt vals svals) = pysubs_of d (subtotals d)
+  | None => True end.
+Proof. exact gen_Payload__subtotals. Qed.
+Print Assumptions C07_gen_Payload__subtotals.
+
+Theorem C07_gen_Payload__element_order_descriptors :
+  match src_PayloadOrderCollator__element_order_descriptors with
+  | Some f => forall d spec empties fmt vals svals,
+      f (pyself_of d spec empties fmt vals svals) = Ok (zdesc (desc_of d OPayload))
+  | None => True end.
+Proof. exact gen_Payload__element_order_descriptors. Qed.
+Print Assumptions C07_gen_Payload__element_order_descriptors.
+
+Theorem C07_gen_Payload__base_element_orderings :
+  match src_PayloadOrderCollator__base_element_orderings with
+  | Some f => forall d spec empties fmt vals svals,
+      f (pyself_of d spec empties fmt vals svals) = Ok (base_keys (desc_of d OPayload))
+  | None => True end.
+Proof. exact gen_Payload__base_element_orderings. Qed.
+Print Assumptions C07_gen_Payload__base_element_orderings.
+
+Theorem C07_gen_Payload__element_positions_by_id :
+  match src_PayloadOrderCollator__element_positions_by_id with
+  | Some f => forall d spec empties fmt vals svals,
+      f (pyself_of d spec empties fmt vals svals) = Ok (pbi_dict (desc_of d OPayload))
+  | None => True end.
+Proof. exact gen_Payload__element_positions_by_id. Qed.
+Print Assumptions C07_gen_Payload__element_positions_by_id.
+
+Theorem C07_gen_Payload__insertion_position :
+  match src_PayloadOrderCollator__insertion_position with
+  | Some f => forall d spec empties fmt vals svals sub,
+      f (pyself_of d spec empties fmt vals svals) sub = ins_pos (desc_of d OPayload) (snd sub)
+  | None => True end.
+Proof. exact gen_Payload__insertion_position. Qed.
+Print Assumptions C07_gen_Payload__insertion_position.
+
+Theorem C07_gen_Payload__insertion_orderings :
+  match src_PayloadOrderCollator__insertion_orderings with
+  | Some f => forall d spec empties fmt vals svals,
+      f (pyself_of d spec empties fmt vals svals)
+      = ins_keys (desc_of d OPayload) (anchors_of d (subtotals d))
+  | None => True end.
+Proof. exact gen_Payload__insertion_orderings. Qed.
+Print Assumptions C07_gen_Payload__insertion_orderings.
+
+Theorem C07_gen_Payload__derived_element_orderings :
+  match src_PayloadOrderCollator__derived_element_orderings with
+  | Some f => forall d spec empties fmt vals svals,
+      f (pyself_of d spec empties fmt vals svals) = Ok []
+  | None => True end.
+Proof. exact gen_Payload__derived_element_orderings. Qed.
+Print Assumptions C07_gen_Payload__derived_element_orderings.
+
+Theorem C07_gen_Payload__display_order_mapping :
+  match src_PayloadOrderCollator__display_order_mapping with
+  | Some f => forall d spec empties fmt vals svals,
+      f (pyself_of d spec empties fmt vals svals) = order_mapping (plain_bogus_ids d)
+  | None => True end.
+Proof. exact gen_Payload__display_order_mapping. Qed.
+Print Assumptions C07_gen_Payload__display_order_mapping.
+
+Theorem C07_gen_Payload__display_order :
+  match src_PayloadOrderCollator__display_order with
+  | Some f => forall d spec empties fmt vals svals,
+      f (pyself_of d spec empties fmt vals svals)
+      = display_result fmt (anchored_display d OPayload empties)
+                           (anchored_display_bogus d OPayload empties)
+  | None => True end.
+Proof. exact gen_Payload__display_order. Qed.
+Print Assumptions C07_gen_Payload__display_order.
+
+Theorem C07_gen_Payload__view_insertions_ordering :
+  match src_PayloadOrderCollator__view_insertions_ordering with
+  | Some f => forall d spec empties fmt vals svals,
+      f (pyself_of d spec empties fmt vals svals)
+      = ins_keys (desc_of d OPayload) (anchors_of d (view_subs d))
+  | None => True end.
+Proof. exact gen_Payload__view_insertions_ordering. Qed.
+Print Assumptions C07_gen_Payload__view_insertions_ordering.
+
+Theorem C07_gen_Payload_payload_order :
+  match src_PayloadOrderCollator_payload_order with
+  | Some f => forall d spec empties fmt vals svals,
+      f (pyself_of d spec empties fmt vals svals) = payload_order d empties
+  | None => True end.
+Proof. exact gen_Payload_payload_order. Qed.
+Print Assumptions C07_gen_Payload_payload_order.
+
+Theorem C07_gen_Explicit__elements :
+  match src_ExplicitOrderCollator__elements with
+  | Some f => forall d spec empties fmt vals svals,
+      f (pyself_of d spec empties fmt vals svals) = d_elems d
+  | None => True end.
+Proof. exact gen_Explicit__elements. Qed.
+Print Assumptions C07_gen_Explicit__elements.
+
+Theorem C07_gen_Explicit__element_ids :
+  match src_ExplicitOrderCollator__element_ids with
+  | Some f => forall d spec empties fmt vals svals,
+      f (pyself_of d spec empties fmt vals svals) = d_ids d
+  | None => True end.
+Proof. exact gen_Explicit__element_ids. Qed.
+Print Assumptions C07_gen_Explicit__element_ids.
+
+Theorem C07_gen_Explicit__subtotals_bogus_ids :
+  match src_ExplicitOrderCollator__subtotals_bogus_ids with
+  | Some f => forall d spec empties fmt vals svals,
+      f (pyself_of d spec empties fmt vals svals) = plain_bogus_ids d
+  | None => True end.
+Proof. exact gen_Explicit__subtotals_bogus_ids. Qed.
+Print Assumptions C07_gen_Explicit__subtotals_bogus_ids.
+
+Theorem C07_gen_Explicit__order_mapping :
+  match src_ExplicitOrderCollator__order_mapping with
+  | Some f => forall d spec empties fmt vals svals,
+      f (pyself_of d spec empties fmt vals svals) = order_mapping (plain_bogus_ids d)
+  | None => True end.
+Proof. exact gen_Explicit__order_mapping. Qed.
+Print Assumptions C07_gen_Explicit__order_mapping.
+
+Theorem C07_gen_Explicit__order_spec :
+  match src_ExplicitOrderCollator__order_spec with
+  | Some f => forall d spec empties fmt vals svals,
+      f (pyself_of d spec empties fmt vals svals) = spec
+  | None => True end.
+Proof. exact gen_Explicit__order_spec. Qed.
+Print Assumptions C07_gen_Explicit__order_spec.
+
+Theorem C07_gen_Explicit__subtotals :
+  match src_ExplicitOrderCollator__subtotals with
+  | Some f => forall d spec empties fmt vals svals,
+      f (pyself_of d spec empties fmt vals svals) = pysubs_of d (subtotals d)
+  | None => True end.
+Proof. exact gen_Explicit__subtotals. Qed.
+Print Assumptions C07_gen_Explicit__subtotals.
+
+Theorem C07_gen_Explicit__element_order_descriptors :
+  match src_ExplicitOrderCollator__element_order_descriptors with
+  | Some f => forall d spec empties fmt vals svals, NoDup (d_ids d) ->
+      f (pyself_of d spec empties fmt vals svals) = Ok (zdesc (desc_of d (OExplicit (po_element_ids spec))))
+  | None => True end.
+Proof. exact gen_Explicit__element_order_descriptors. Qed.
+Print Assumptions C07_gen_Explicit__element_order_descriptors.
+
+Theorem C07_gen_Explicit__base_element_orderings :
+  match src_ExplicitOrderCollator__base_element_orderings with
+  | Some f => forall d spec empties fmt vals svals, NoDup (d_ids d) ->
+      f (pyself_of d spec empties fmt vals svals) = Ok (base_keys (desc_of d (OExplicit (po_element_ids spec))))
+  | None => True end.
+Proof. exact gen_Explicit__base_element_orderings. Qed.
+Print Assumptions C07_gen_Explicit__base_element_orderings.
+
+Theorem C07_gen_Explicit__element_positions_by_id :
+  match src_ExplicitOrderCollator__element_positions_by_id with
+  | Some f => forall d spec empties fmt vals svals, NoDup (d_ids d) ->
+      f (pyself_of d spec empties fmt vals svals) = Ok (pbi_dict (desc_of d (OExplicit (po_element_ids spec))))
+  | None => True end.
+Proof. exact gen_Explicit__element_positions_by_id. Qed.
+Print Assumptions C07_gen_Explicit__element_positions_by_id.
+
+Theorem C07_gen_Explicit__insertion_position :
+  match src_ExplicitOrderCollator__insertion_position with
+  | Some f => forall d spec empties fmt vals svals sub, NoDup (d_ids d) ->
+      f (pyself_of d spec empties fmt vals svals) sub = ins_pos (desc_of d (OExplicit (po_element_ids spec))) (snd sub)
+  | None => True end.
+Proof. exact gen_Explicit__insertion_position. Qed.
+Print Assumptions C07_gen_Explicit__insertion_position.
+
+Theorem C07_gen_Explicit__insertion_orderings :
+  match src_ExplicitOrderCollator__insertion_orderings with
+  | Some f => forall d spec empties fmt vals svals, NoDup (d_ids d) ->
+      f (pyself_of d spec empties fmt vals svals)
+      = ins_keys (desc_of d (OExplicit (po_element_ids spec))) (anchors_of d (subtotals d))
+  | None => True end.
+Proof. exact gen_Explicit__insertion_orderings. Qed.
+Print Assumptions C07_gen_Explicit__insertion_orderings.
+
+Theorem C07_gen_Explicit__derived_element_position :
+  match src_ExplicitOrderCollator__derived_element_position with
+  | Some f => forall d spec empties fmt vals svals el,
+      NoDup (d_ids d) -> In el (d_elems d) -> e_derived el = true ->
+      f (pyself_of d spec empties fmt vals svals) (e_id el)
+      = Ok (danchor_pos (desc_of d (OExplicit (po_element_ids spec))) (e_danchor el))
+  | None => True end.
+Proof. exact gen_Explicit__derived_element_position. Qed.
+Print Assumptions C07_gen_Explicit__derived_element_position.
+
+Theorem C07_gen_Explicit__derived_element_orderings :
+  match src_ExplicitOrderCollator__derived_element_orderings with
+  | Some f => forall d spec empties fmt vals svals, NoDup (d_ids d) ->
+      f (pyself_of d spec empties fmt vals svals)
+      = Ok (map (float_key (desc_of d (OExplicit (po_element_ids spec)))) (derived_floats d))
+  | None => True end.
+Proof. exact gen_Explicit__derived_element_orderings. Qed.
+Print Assumptions C07_gen_Explicit__derived_element_orderings.
+
+Theorem C07_gen_Explicit__display_order_mapping :
+  match src_ExplicitOrderCollator__display_order_mapping with
+  | Some f => forall d spec empties fmt vals svals,
+      f (pyself_of d spec empties fmt vals svals) = order_mapping (plain_bogus_ids d)
+  | None => True end.
+Proof. exact gen_Explicit__display_order_mapping. Qed.
+Print Assumptions C07_gen_Explicit__display_order_mapping.
+
+Theorem C07_gen_Explicit__display_order :
+  match src_ExplicitOrderCollator__display_order with
+  | Some f => forall d spec empties fmt vals svals, NoDup (d_ids d) ->
+      f (pyself_of d spec empties fmt vals svals)
+      = display_result fmt (anchored_display d (OExplicit (po_element_ids spec)) empties)
+                           (anchored_display_bogus d (OExplicit (po_element_ids spec)) empties)
+  | None => True end.
+Proof. exact gen_Explicit__display_order. Qed.
+Print Assumptions C07_gen_Explicit__display_order.
+
+Theorem C07_gen_Payload___init__ :
+  match src_PayloadOrderCollator___init__ with
+  | Some f => forall (dim : pydim) (empty : list Z) (fmt : order_format),
+      f dim empty fmt = mkPyCollator dim empty fmt [] []
+  | None => True end.
+Proof. exact gen_Payload___init__. Qed.
+Print Assumptions C07_gen_Payload___init__.
+
+Theorem C07_gen_Payload_display_order :
+  match src_PayloadOrderCollator_display_order with
+  | Some f => forall d spec empties fmt,
+      f (pydim_of d spec) (map Z.of_nat empties) fmt
+      = display_result fmt (anchored_display d OPayload empties)
+                           (anchored_display_bogus d OPayload empties)
+  | None => True end.
+Proof. exact gen_Payload_display_order. Qed.
+Print Assumptions C07_gen_Payload_display_order.
+
+Theorem C07_gen_Explicit___init__ :
+  match src_ExplicitOrderCollator___init__ with
+  | Some f => forall (dim : pydim) (empty : list Z) (fmt : order_format),
+      f dim empty fmt = mkPyCollator dim empty fmt [] []
+  | None => True end.
+Proof. exact gen_Explicit___init__. Qed.
+Print Assumptions C07_gen_Explicit___init__.
+
+Theorem C07_gen_Explicit_display_order :
+  match src_ExplicitOrderCollator_display_order with
+  | Some f => forall d spec empties fmt, NoDup (d_ids d) ->
+      f (pydim_of d spec) (map Z.of_nat empties) fmt
+      = display_result fmt (anchored_display d (OExplicit (po_element_ids spec)) empties)
+                           (anchored_display_bogus d (OExplicit (po_element_ids spec)) empties)
+  | None => True end.
+Proof. exact gen_Explicit_display_order. Qed.
+Print Assumptions C07_gen_Explicit_display_order.
+
+End GenAgreeCollator_C07.
+(*END GenAgreeCollator_C07*)
+
+(* ---- WIRING-APPENDIX:BEGIN (generated by tools/gen_wiring_props.py; do not edit) ---- *)
+From CC Require Proofs.GenAgreeWiring_C07.
+Section Wiring_C07.
+Import Coq.Lists.List Coq.ZArith.ZArith Coq.Strings.String CC.Base.WiringExp CC.Gen.WiringSrc.
+Import ListNotations.
+Local Open Scope string_scope.
+
+Theorem C07_wiring_Slice_payload_order :
+  wsrc_Slice_payload_order = Some (WCall (WGlobal "tuple") [WAttr (WCall (WGlobal
+      "PayloadOrderCollator") [WSelf "_rows_dimension"; WCall (WGlobal "tuple") [WIndex (WCall
+      (WAttr (WGlobal "np") "where") [WAttr (WSelf "_measures") "rows_pruning_mask"] []) [WInt
+      (0)%Z]] []] []) "payload_order"] []).
+Proof. exact Proofs.GenAgreeWiring_C07.gen_wiring_Slice_payload_order. Qed.
+Print Assumptions C07_wiring_Slice_payload_order.
+
+Theorem C07_wiring_Strand_payload_order :
+  wsrc_Strand_payload_order = Some (WCall (WGlobal "tuple") [WAttr (WCall (WGlobal
+      "PayloadOrderCollator") [WSelf "_rows_dimension"; WCall (WGlobal "tuple") [WComp "gen" (WVar
+      "i") [(["i"; "N"], WCall (WGlobal "enumerate") [WAttr (WSelf "_measures") "pruning_base"] [],
+      [WCmp "==" (WVar "N") (WInt (0)%Z)])]] []] []) "payload_order"] []).
+Proof. exact Proofs.GenAgreeWiring_C07.gen_wiring_Strand_payload_order. Qed.
+Print Assumptions C07_wiring_Strand_payload_order.
+
+Theorem C07_wiring_Strand__row_order_bogus_ids :
+  wsrc_Strand__row_order_bogus_ids = Some (WCall (WAttr (WGlobal "np") "array") [WCall (WAttr (WGlobal
+      "stripe_BaseOrderHelper") "display_order") [WSelf "_rows_dimension"; WSelf "_measures"]
+      [("format", WAttr (WGlobal "ORDER_FORMAT") "BOGUS_IDS")]] []).
+Proof. exact Proofs.GenAgreeWiring_C07.gen_wiring_Strand__row_order_bogus_ids. Qed.
+Print Assumptions C07_wiring_Strand__row_order_bogus_ids.
+
+End Wiring_C07.
+(* ---- WIRING-APPENDIX:END ---- *)
